@@ -92,12 +92,15 @@ class Part:
         self.traces = 0
         self.extra: dict[str, Any] = {}
 
-    def viol(self, sig: str, detail: str, case: Any) -> None:
+    def viol(self, sig: str, detail: str, case: Any, rank: Any = None) -> None:
+        """Record a violation; per signature the case of lowest rank (simplest) is kept."""
         ent = self.viols.get(sig)
         if ent is None:
-            self.viols[sig] = [1, detail, jsonable(case)]
+            self.viols[sig] = [1, detail, jsonable(case), rank]
         else:
             ent[0] += 1
+            if rank is not None and (ent[3] is None or rank < ent[3]):
+                ent[1], ent[2], ent[3] = detail, jsonable(case), rank
 
     def sample(self, case: Any) -> None:
         if len(self.samples) < MAX_SAMPLES:
@@ -107,12 +110,14 @@ class Part:
         self.evaluations += other.evaluations
         self.nontrivial += other.nontrivial
         self.outcomes.update(other.outcomes)
-        for sig, (n, detail, case) in other.viols.items():
+        for sig, (n, detail, case, rank) in other.viols.items():
             ent = self.viols.get(sig)
             if ent is None:
-                self.viols[sig] = [n, detail, case]
+                self.viols[sig] = [n, detail, case, rank]
             else:
                 ent[0] += n
+                if rank is not None and (ent[3] is None or rank < ent[3]):
+                    ent[1], ent[2], ent[3] = detail, case, rank
         for s in other.samples:
             if len(self.samples) < MAX_SAMPLES:
                 self.samples.append(s)
@@ -235,7 +240,7 @@ def finish(ctx: Ctx, mod: Any) -> int:
     os.makedirs(os.path.join(VERIF, "replays"), exist_ok=True)
     known_hit = []
     for sig in sorted(total.viols):
-        n, detail, case = total.viols[sig]
+        n, detail, case, _rank = total.viols[sig]
         if sig in known:
             known_hit.append(sig)
             lines.append(f"KNOWN-FINDING: property={ctx.pid} {sig} :: {known[sig]['what']} ({n} cases)")
